@@ -173,16 +173,26 @@ def bytesLe : Bytes → Bytes → Bool
   | _ :: _, [] => false
   | a :: as, b :: bs => if a < b then true else if b < a then false else bytesLe as bs
 
+/-- Insertion sort (structural, so that concrete instances evaluate by `decide`); `sort.Sort` of the Go
+code is only required to produce *a* sorted permutation — names are unique, so it is this one. -/
+def insertBy {α : Type} (le : α → α → Bool) (x : α) : List α → List α
+  | [] => [x]
+  | y :: ys => if le x y then x :: y :: ys else y :: insertBy le x ys
+
+def sortBy {α : Type} (le : α → α → Bool) : List α → List α
+  | [] => []
+  | x :: xs => insertBy le x (sortBy le xs)
+
 def chanView (c : Chan) : ChanView := ⟨c.name, c.paused, c.clients, c.msgs.length⟩
 
 def topicView (t : Topic) (cs : List Chan) : TopicView :=
-  ⟨t.name, t.paused, t.count, t.msgs.length, (cs.mergeSort (fun a b => bytesLe a.name b.name)).map chanView⟩
+  ⟨t.name, t.paused, t.count, t.msgs.length, (sortBy (fun a b => bytesLe a.name b.name) cs).map chanView⟩
 
 /-- `NSQD.GetStats(topic, channel, _)`: the named topic or all; per topic the named channel or all
 (a topic without the named channel is left out); both levels sorted by name. -/
 def statsView (b : Broker) (topic channel : Bytes) : List TopicView :=
-  ((if topic.isEmpty then b else b.filter (·.name == topic)).mergeSort
-      (fun x y => bytesLe x.name y.name)).filterMap (fun t =>
+  (sortBy (fun x y => bytesLe x.name y.name)
+      (if topic.isEmpty then b else b.filter (·.name == topic))).filterMap (fun t =>
     if channel.isEmpty then some (topicView t t.chans)
     else if hasChan t channel then some (topicView t (t.chans.filter (·.name == channel)))
     else none)
@@ -206,23 +216,17 @@ def doStatsFull (b : Broker) (rq : Request) : HRes :=
 
 /-! ## `/config/:opt` -/
 
-/-- `strings.ToLower` as far as a comparison with an ASCII word can tell: ASCII letters, `İ`
-(U+0130 = C4 B0 → `i`) and the Kelvin sign (U+212A = E2 84 AA → `k`); every other non-ASCII
-sequence stays non-ASCII. -/
-def goLower : Bytes → Bytes
-  | [] => []
-  | 0xC4 :: 0xB0 :: r => 105 :: goLower r
-  | 0xE2 :: 0x84 :: 0xAA :: r => 107 :: goLower r
-  | c :: r => (if 65 ≤ c ∧ c ≤ 90 then c + 32 else c) :: goLower r
-
-/-- `lg.ParseLogLevel`: DEBUG = 1 … FATAL = 5. -/
-def parseLogLevel (s : Bytes) : Option Nat :=
-  if goLower s = ascii "debug" then some 1
-  else if goLower s = ascii "info" then some 2
-  else if goLower s = ascii "warn" then some 3
-  else if goLower s = ascii "error" then some 4
-  else if goLower s = ascii "fatal" then some 5
+/-- The five level words: DEBUG = 1 … FATAL = 5. -/
+def wordLevel (w : Bytes) : Option Nat :=
+  if w = ascii "debug" then some 1
+  else if w = ascii "info" then some 2
+  else if w = ascii "warn" then some 3
+  else if w = ascii "error" then some 4
+  else if w = ascii "fatal" then some 5
   else none
+
+/-- `lg.ParseLogLevel`: `switch strings.ToLower(levelstr)`. -/
+def parseLogLevel (s : Bytes) : Option Nat := wordLevel (goLower s)
 
 /-- Scanner states of the recogniser for `json.Unmarshal(body, &[]string) == nil`: the text is
 `null` or an array whose elements are strings or `null`, with JSON white space anywhere between
@@ -347,12 +351,18 @@ def serve (hc : HConf) (healthy : Bool) (b : Broker) (rq : Request) : Wire × Br
     | .methodNotAllowed => (renderV1 (.err .s405 "METHOD_NOT_ALLOWED"), b)
     | .notFound => (renderV1 (.err .notFoundOrRedirect "NOT_FOUND"), b)
 
-/-- Every `message` an error body of this server can carry. -/
+def allCodes : List Code := [
+  .E_INVALID, .E_BAD_BODY, .E_BAD_TOPIC, .E_BAD_CHANNEL, .E_BAD_MESSAGE, .E_PUB_FAILED, .E_MPUB_FAILED,
+  .E_DPUB_FAILED, .E_FIN_FAILED, .E_REQ_FAILED, .E_TOUCH_FAILED, .E_SUB_FAILED, .E_IDENTIFY_FAILED,
+  .E_AUTH_DISABLED, .E_AUTH_FAILED, .E_UNAUTHORIZED, .E_AUTH_FIRST, .E_AUTH_ERROR, .E_BAD_PROTOCOL]
+
+/-- Every `message` an error body of this server can carry (the last group: `Code[2:]` of a
+protocol error, of which binary /mpub produces `BAD_BODY` and `BAD_MESSAGE`). -/
 def errorMessages : List String := [
   "INVALID_REQUEST", "MISSING_ARG_TOPIC", "INVALID_TOPIC", "INVALID_ARG_TOPIC", "MISSING_ARG_CHANNEL",
   "INVALID_ARG_CHANNEL", "TOPIC_NOT_FOUND", "CHANNEL_NOT_FOUND", "MSG_TOO_BIG", "MSG_EMPTY", "INVALID_DEFER",
-  "BODY_TOO_BIG", "BAD_BODY", "BAD_MESSAGE", "INVALID_VALUE", "INVALID_OPTION", "NOT_FOUND",
-  "METHOD_NOT_ALLOWED", "INTERNAL_ERROR", "TLS_REQUIRED", "BAD_TOPIC", "INVALID"]
+  "BODY_TOO_BIG", "INVALID_VALUE", "INVALID_OPTION", "NOT_FOUND", "METHOD_NOT_ALLOWED", "INTERNAL_ERROR"]
+  ++ allCodes.map codeTail
 
 /-- Characters `json.Marshal` writes verbatim inside a string (so `{"message":"m"}` is literally
 the rendered body): here upper-case letters and `_`. -/
